@@ -225,16 +225,6 @@ fn check(c: &Case, obs: &mut Obs) -> Result<(), Fail> {
         }
     }
 
-    // ---- Display / FromStr
-    let shown = a.to_string();
-    let want_shown = match expected_hrp(c) {
-        Some(hrp) => refs::bech32(hrp, &exp),
-        None => exp_hex.clone(),
-    };
-    pv_ensure!(shown == want_shown, format!("to_string:type{t}"), "to_string() = {} expected {}", shown, want_shown);
-    let back = Address::from_str(&shown);
-    pv_ensure!(matches!(&back, Ok(b) if *b == a), format!("roundtrip-string:type{t}"), "from_str({}) = {:?}", shown, back);
-
     // ---- coverage bookkeeping
     obs.class(format!("type{t}"));
     obs.class(match c.net {
@@ -252,6 +242,26 @@ fn check(c: &Case, obs: &mut Obs) -> Result<(), Fail> {
         }
     }
     obs.nontrivial();
+
+    // ---- Display / FromStr (last: the hex-fallback ambiguity below is a known finding)
+    let shown = a.to_string();
+    let want_shown = match expected_hrp(c) {
+        Some(hrp) => refs::bech32(hrp, &exp),
+        None => exp_hex.clone(),
+    };
+    pv_ensure!(shown == want_shown, format!("to_string:type{t}"), "to_string() = {} expected {}", shown, want_shown);
+    let back = Address::from_str(&shown);
+    if expected_hrp(c).is_none() {
+        // to_string() fell back to hex; FromStr tries base58 (Byron) before hex
+        if let Ok(Address::Byron(b)) = &back {
+            pvkit::pv_fail!(
+                "from_str-hex-form-taken-as-base58-byron",
+                "to_string() of {:?} is the hex string {}, which from_str() reads as a base58 Byron address: {:?}",
+                a, shown, b
+            );
+        }
+    }
+    pv_ensure!(matches!(&back, Ok(b) if *b == a), format!("roundtrip-string:type{t}"), "from_str({}) = {:?}", shown, back);
     Ok(())
 }
 
@@ -316,7 +326,7 @@ pub fn run(s: &Session) {
         address, so every case is non-trivial; distinct = distinct (type, net, hashes, pointer). varuint sub-checks: \
         non-trivial = some value >= 128 (multi-byte encoding)");
     s.assume("Network ids are built with Network::from(id), id in 0..=15 (Network::Other(0|1|>=16) is outside the domain: it has no header encoding)");
-    s.assume("FromStr on the hex fallback (ids 2..15): a hex string is taken not to be simultaneously a valid bech32 string or a base58 Byron address (probability < 2^-24 per case)");
+    s.assume("FromStr on the hex fallback (ids 2..15): a hex string is taken not to be simultaneously a valid bech32 string (needs a 30-bit checksum match)");
     for bad in refs::self_test() {
         s.health(false, &bad);
     }
@@ -360,7 +370,18 @@ pub fn run(s: &Session) {
         }
     }
     s.foreach("type-x-network-grid", fam, false, check);
-    s.forall("random-addresses", s.pick(50_000, 2_000_000), case, check);
+    // found by the thorough tier (seed 1) and shrunk: the hex form of this address contains no '0',
+    // so it is also a base58 string, and what it decodes to is accepted by the Byron parser as
+    // payload 35644a48 / crc 2 (finding C18-1)
+    let amb = Case {
+        ty: 3,
+        net: 7,
+        h1: hex::decode("b5be89f96a1111111111111111111111111111111111111111111111").unwrap(),
+        h2: vec![0xff; 28],
+        ptr: (0, 0, 0),
+    };
+    s.foreach("hex-fallback-ambiguity-vector", vec![amb], false, check);
+    s.forall("random-addresses", s.pick(1_500_000, 30_000_000), case, check);
 
     // varint codec
     let mut fam = vec![];
@@ -391,7 +412,7 @@ pub fn run(s: &Session) {
     s.foreach("varuint-boundaries", fam, false, check_varuint);
     s.forall(
         "varuint-random",
-        s.pick(100_000, 3_000_000),
+        s.pick(1_500_000, 30_000_000),
         || prop_oneof![word().prop_map(|v| vec![v]), (word(), word(), word()).prop_map(|(a, b, c)| vec![a, b, c])].prop_map(|vals| Words { vals }),
         check_varuint,
     );
